@@ -242,6 +242,36 @@ pub fn seam_point(rng: &mut Rng, eps: f64) -> (f64, f64) {
     }
 }
 
+/// a point at signed distance ~eps from the seam between two given adjacent faces (positive: on i's side),
+/// at parameter t along the seam (0 = edge midpoint)
+pub fn edge_point(i: usize, j: usize, t: f64, eps: f64) -> (f64, f64) {
+    let origins = get_origins();
+    let cart = |t: f64, p: f64| [p.sin() * t.cos(), p.sin() * t.sin(), p.cos()];
+    let a = cart(origins[i].axis.theta().get(), origins[i].axis.phi().get());
+    let b = cart(origins[j].axis.theta().get(), origins[j].axis.phi().get());
+    let m = [a[0] + b[0], a[1] + b[1], a[2] + b[2]];
+    let c = [a[1] * b[2] - a[2] * b[1], a[2] * b[0] - a[0] * b[2], a[0] * b[1] - a[1] * b[0]];
+    let p = [m[0] + t * c[0] + eps * (a[0] - b[0]), m[1] + t * c[1] + eps * (a[1] - b[1]), m[2] + t * c[2] + eps * (a[2] - b[2])];
+    let r = (p[0] * p[0] + p[1] * p[1] + p[2] * p[2]).sqrt();
+    (p[1].atan2(p[0]), (p[2] / r).acos())
+}
+
+/// a random pair of adjacent faces
+pub fn adjacent_faces(rng: &mut Rng) -> (usize, usize) {
+    let origins = get_origins();
+    let cart = |t: f64, p: f64| [p.sin() * t.cos(), p.sin() * t.sin(), p.cos()];
+    loop {
+        let i = rng.below(12) as usize;
+        let j = rng.below(12) as usize;
+        let a = cart(origins[i].axis.theta().get(), origins[i].axis.phi().get());
+        let b = cart(origins[j].axis.theta().get(), origins[j].axis.phi().get());
+        let d: f64 = a[0] * b[0] + a[1] * b[1] + a[2] * b[2];
+        if i != j && d > 0.4 {
+            return (i, j);
+        }
+    }
+}
+
 pub fn cases_c18(rng: &mut Rng, thorough: bool) -> Vec<GenCase> {
     let mut v = Vec::new();
     let n = if thorough { 6000 } else { 900 };
